@@ -332,7 +332,7 @@ func cmdSQLiReplay(args []string) int {
 				why = "fingerprint"
 			case r.Black != *b.Black || (r.Black && r.White != b.White) || r.Verdict != b.Verdict:
 				why = "decision"
-			case r.DDX != b.DDX || r.Hash != b.Hash || r.NTok != b.NTok || r.Folds != b.Folds:
+			case r.DDX != b.DDX || r.Hash != b.Hash || r.NTok != b.NTok:
 				why = "statistics"
 			case len(r.Toks) != len(b.Toks):
 				why = "folded length"
@@ -368,7 +368,7 @@ func cmdSQLiReplay(args []string) int {
 							why = fmt.Sprintf("pass %d mode", i)
 						} else if !intsEq(e.Fp, p.Fp) {
 							why = fmt.Sprintf("pass %d fingerprint", i)
-						} else if e.DDX != p.DDX || e.Hash != p.Hash || e.NTok != p.NTok || e.Folds != p.Folds {
+						} else if e.DDX != p.DDX || e.Hash != p.Hash || e.NTok != p.NTok {
 							why = fmt.Sprintf("pass %d statistics", i)
 						}
 						if why != "" {
